@@ -206,7 +206,8 @@ theorem setAst_inv (s : State) (f : Nat) (old new : Ast)
     (hold : findId old.id s.root = some old) (hf : s.σ.astF old.id = some f) (hne : s.root.id ≠ old.id)
     (hnnd : (ids new).Nodup) (hfresh : ∀ x ∈ ids new, s.σ.astF x = none) :
     LinkInv (setAst s f new) ∧ (setAst s f new).rootF = s.rootF ∧
-      (setAst s f new).root = replaceId old.id (new.setFld old.fld) s.root := by
+      (setAst s f new).root = replaceId old.id (new.setFld old.fld) s.root ∧
+      (setAst s f new).σ = touch (swapσ s.σ old f new) f := by
   simp only [LinkInv, linkInvB, Bool.and_eq_true, beq_iff_eq] at hinv
   obtain ⟨hl, hrootF⟩ := hinv
   have hback : ∀ x ∈ ids s.root, ∀ g, s.σ.astF x = some g → (s.σ.fst g).a = some x ∧ g < s.σ.next :=
@@ -235,7 +236,7 @@ theorem setAst_inv (s : State) (f : Nat) (old new : Ast)
     simp only [swapσ] at hP hQ
     simp only [swapσ, hP, hQ]
   rw [hres]
-  refine ⟨?_, rfl, rfl⟩
+  refine ⟨?_, rfl, rfl, rfl⟩
   simp only [LinkInv, linkInvB, linkedB_touch, Bool.and_eq_true, beq_iff_eq]
   refine ⟨hspine, ?_⟩
   -- the root AST is not replaced and keeps its FST
@@ -288,7 +289,8 @@ theorem setField_inv (s : State) (f : Nat) (name : String) (isList : Bool) (P : 
     (hP : findId P.id s.root = some P) (hf : s.σ.astF P.id = some f)
     (hnnd : (idsList new0).Nodup) (hfresh : ∀ x ∈ idsList new0, s.σ.astF x = none) :
     LinkInv (setField s f name isList new0) ∧ (setField s f name isList new0).rootF = s.rootF ∧
-      (setField s f name isList new0).root = setKids P.id name (relabel name isList 0 new0) s.root := by
+      (setField s f name isList new0).root = setKids P.id name (relabel name isList 0 new0) s.root ∧
+      (setField s f name isList new0).σ = touch (fieldσ s.σ (fieldOf name P) f (relabel name isList 0 new0)) f := by
   simp only [LinkInv, linkInvB, Bool.and_eq_true, beq_iff_eq] at hinv
   obtain ⟨hl, hrootF⟩ := hinv
   have hback : ∀ x ∈ ids s.root, ∀ g, s.σ.astF x = some g → (s.σ.fst g).a = some x ∧ g < s.σ.next :=
@@ -311,7 +313,7 @@ theorem setField_inv (s : State) (f : Nat) (name : String) (isList : Bool) (P : 
     simp only [setField, hPb.1, hP, if_true, newElems_eq_makeKids, fieldσ, fieldOf]
     rfl
   rw [hres]
-  refine ⟨?_, rfl, rfl⟩
+  refine ⟨?_, rfl, rfl, rfl⟩
   simp only [LinkInv, linkInvB, linkedB_touch, Bool.and_eq_true, beq_iff_eq]
   refine ⟨hspine, ?_⟩
   rw [setKids_id]
@@ -335,6 +337,86 @@ theorem setField_inv (s : State) (f : Nat) (name : String) (isList : Bool) (P : 
   rw [C.astF_keep _ hro hrn]
   exact hrootF
 
+/-- **Well-formed state**: the link invariant, pairwise distinct ASTs in the tree, and the FST objects of the tree
+exist (`< next`). This is what every operation below assumes and re-establishes. -/
+def WF (s : State) : Prop :=
+  LinkInv s ∧ (ids s.root).Nodup ∧ ∀ x ∈ ids s.root, ∀ g, s.σ.astF x = some g → g < s.σ.next
+
+/-- **setAst_wf**: `_set_ast` (non-root position, fresh new tree) keeps the state well formed. -/
+theorem setAst_wf (s : State) (f : Nat) (old new : Ast) (h : WF s)
+    (hold : findId old.id s.root = some old) (hf : s.σ.astF old.id = some f) (hne : s.root.id ≠ old.id)
+    (hnnd : (ids new).Nodup) (hfresh : ∀ x ∈ ids new, s.σ.astF x = none) : WF (setAst s f new) := by
+  obtain ⟨hinv, hnd, hbd⟩ := h
+  obtain ⟨hi, _, hrt, hσ⟩ := setAst_inv s f old new hinv hnd hbd hold hf hne hnnd hfresh
+  have hl : linkedB s.σ none s.root = true := by
+    simp only [LinkInv, linkInvB, Bool.and_eq_true] at hinv; exact hinv.1
+  have hdn : ∀ x ∈ ids s.root, x ∉ ids new := fun x hx hn => linked_isSome s.σ s.root none hl x hx (hfresh x hn)
+  obtain ⟨_, holdR⟩ := findId_some s.root old.id old hold
+  have hF : f < s.σ.next := hbd old.id (holdR _ (id_mem_ids old)) f hf
+  have hback : ∀ x ∈ ids s.root, ∀ g, s.σ.astF x = some g → (s.σ.fst g).a = some x ∧ g < s.σ.next :=
+    fun x hx g hg => ⟨linked_back s.σ s.root none hl x hx g hg, hbd x hx g hg⟩
+  have C := swapσ_ctx s.σ (ids s.root) old new f hback holdR hf hnnd hfresh
+  obtain ⟨hle, hnew, hdead⟩ := swapσ_bounds s.σ old new f hF hnnd hfresh
+  refine ⟨hi, ?_, ?_⟩
+  · rw [hrt]
+    exact replaceId_nodup s.root old.id _ hnd (by rw [ids_setFld]; exact hnnd) (by rw [ids_setFld]; exact hdn)
+  · intro x hx g hg
+    rw [hrt] at hx
+    rw [hσ] at hg ⊢
+    change (swapσ s.σ old f new).astF x = some g at hg
+    change g < (swapσ s.σ old f new).next
+    have hx' := replaceId_ids_sub s.root old.id _ x hx
+    rw [ids_setFld] at hx'
+    by_cases hxn : x ∈ ids new
+    · exact hnew x hxn g hg
+    · have hxr : x ∈ ids s.root := hx'.resolve_right hxn
+      by_cases hxo : x ∈ ids old
+      · rw [hdead x hxo hxn] at hg; cases hg
+      · rw [C.astF_keep x hxo hxn] at hg
+        have := hbd x hxr g hg
+        omega
+
+/-- **setField_wf**: `_set_field` (any node, fresh new elements) keeps the state well formed. -/
+theorem setField_wf (s : State) (f : Nat) (name : String) (isList : Bool) (P : Ast) (new0 : List Ast) (h : WF s)
+    (hP : findId P.id s.root = some P) (hf : s.σ.astF P.id = some f)
+    (hnnd : (idsList new0).Nodup) (hfresh : ∀ x ∈ idsList new0, s.σ.astF x = none) :
+    WF (setField s f name isList new0) := by
+  obtain ⟨hinv, hnd, hbd⟩ := h
+  obtain ⟨hi, _, hrt, hσ⟩ := setField_inv s f name isList P new0 hinv hnd hbd hP hf hnnd hfresh
+  have hl : linkedB s.σ none s.root = true := by
+    simp only [LinkInv, linkInvB, Bool.and_eq_true] at hinv; exact hinv.1
+  have hids : idsList (relabel name isList 0 new0) = idsList new0 := idsList_relabel name isList new0 0
+  have hdn : ∀ x ∈ ids s.root, x ∉ idsList (relabel name isList 0 new0) := by
+    intro x hx hn; rw [hids] at hn
+    exact linked_isSome s.σ s.root none hl x hx (hfresh x hn)
+  obtain ⟨_, hPR⟩ := findId_some s.root P.id P hP
+  have hF : f < s.σ.next := hbd P.id (hPR _ (id_mem_ids P)) f hf
+  have hback : ∀ x ∈ ids s.root, ∀ g, s.σ.astF x = some g → (s.σ.fst g).a = some x ∧ g < s.σ.next :=
+    fun x hx g hg => ⟨linked_back s.σ s.root none hl x hx g hg, hbd x hx g hg⟩
+  have hbodyR : ∀ y ∈ idsList (fieldOf name P), y ∈ ids s.root :=
+    fun y hy => hPR y (idsList_kids_sub P y (idsList_filter_sub _ _ y hy))
+  have hn' : (idsList (relabel name isList 0 new0)).Nodup := by rw [hids]; exact hnnd
+  have hf' : ∀ x ∈ idsList (relabel name isList 0 new0), s.σ.astF x = none := by rw [hids]; exact hfresh
+  have C := fieldσ_ctx s.σ (ids s.root) (fieldOf name P) (relabel name isList 0 new0) f hF hback hbodyR hn' hf'
+  obtain ⟨hle, hnew, hdead⟩ := fieldσ_bounds s.σ (fieldOf name P) (relabel name isList 0 new0) f hF hn' hf'
+  refine ⟨hi, ?_, ?_⟩
+  · rw [hrt]
+    exact setKids_nodup s.root P.id name _ hnd hn' hdn
+  · intro x hx g hg
+    rw [hrt] at hx
+    rw [hσ] at hg ⊢
+    change (fieldσ s.σ (fieldOf name P) f (relabel name isList 0 new0)).astF x = some g at hg
+    change g < (fieldσ s.σ (fieldOf name P) f (relabel name isList 0 new0)).next
+    have hx' := setKids_ids_sub s.root P.id name _ x hx
+    by_cases hxn : x ∈ idsList (relabel name isList 0 new0)
+    · exact hnew x hxn g hg
+    · have hxr : x ∈ ids s.root := hx'.resolve_right hxn
+      by_cases hxo : x ∈ idsList (fieldOf name P)
+      · rw [hdead x hxo hxn] at hg; cases hg
+      · rw [C.astF_keep x hxo hxn] at hg
+        have := hbd x hxr g hg
+        omega
+
 /-- **root_identity**: no sequence of link operations changes which FST object is the root. -/
 theorem root_identity (ops : List Op) : ∀ s : State, (run s ops).rootF = s.rootF := by
   induction ops with
@@ -357,6 +439,48 @@ theorem root_identity (ops : List Op) : ∀ s : State, (run s ops).rootF = s.roo
 theorem touch_preserves_links (s : State) (g : Nat) : LinkInv { s with σ := touch s.σ g } ↔ LinkInv s := by
   simp only [LinkInv, linkInvB, linkedB_touch]
   simp only [touch]
+
+/-- an operation the theorems cover, in state `s`: `_set_ast` with the default flags on the FST of a non-root node of
+the tree, `_set_field` with the default flags on the FST of any node of the tree, both with fresh pairwise distinct
+new ASTs (none has an FST in `s`); `_touch` of any FST. (`_set_ast` at the root: `setAst_inv_partial`; `_touchall`
+and the non-default flags are outside this predicate: correspondence only.) -/
+def Admissible (s : State) : Op → Prop
+  | .setAst f new v u => v = false ∧ u = true ∧ ∃ old, findId old.id s.root = some old ∧ s.σ.astF old.id = some f ∧
+      s.root.id ≠ old.id ∧ (ids new).Nodup ∧ ∀ x ∈ ids new, s.σ.astF x = none
+  | .setField f _ _ new v u => v = false ∧ u = true ∧ ∃ P, findId P.id s.root = some P ∧ s.σ.astF P.id = some f ∧
+      (idsList new).Nodup ∧ ∀ x ∈ idsList new, s.σ.astF x = none
+  | .touch _ => True
+  | .touchall _ _ _ _ => False
+
+/-- every operation of the sequence is admissible in the state it is applied to -/
+def AdmissibleRun : State → List Op → Prop
+  | _, [] => True
+  | s, o :: rest => Admissible s o ∧ AdmissibleRun (step s o) rest
+
+/-- **step_wf**: one admissible operation keeps the state well formed. -/
+theorem step_wf (s : State) (o : Op) (h : WF s) (ha : Admissible s o) : WF (step s o) := by
+  cases o with
+  | setAst f new v u =>
+    obtain ⟨hv, hu, old, h1, h2, h3, h4, h5⟩ := ha
+    subst hv; subst hu
+    exact setAst_wf s f old new h h1 h2 h3 h4 h5
+  | setField f name l new v u =>
+    obtain ⟨hv, hu, P, h1, h2, h3, h4⟩ := ha
+    subst hv; subst hu
+    exact setField_wf s f name l P new h h1 h2 h3 h4
+  | touch f =>
+    obtain ⟨hinv, hnd, hbd⟩ := h
+    exact ⟨(touch_preserves_links s f).mpr hinv, hnd, hbd⟩
+  | touchall f p sf c => exact absurd ha id
+
+/-- **run_wf**: the link invariant (with pairwise distinct ASTs and existing FST objects) holds in every state reached
+from a well-formed state by any sequence of admissible operations, of any length. -/
+theorem run_wf (ops : List Op) : ∀ s : State, WF s → AdmissibleRun s ops → WF (run s ops) := by
+  induction ops with
+  | nil => intro s h _; exact h
+  | cons o rest ih =>
+    intro s h ha
+    exact ih (step s o) (step_wf s o h ha.1) ha.2
 
 /-- **slicePut_flushes_children** (repaired C02-F1 call site): the tail of a slice put to `Call` / `ClassDef` /
 `MatchClass` leaves every direct child that has an FST with an empty cache, changes no link, and keeps LinkInv. -/
@@ -603,6 +727,12 @@ example : s3.root = setKids s2.root.id "body" (relabel "body" true 0 newBody) s2
 private def s4 : State := setField s2 3 "args" true [ .mk 40 "Name" none [], .mk 41 "Name" none [] ]
 example : LinkInv s4 ∧ s4.σ.astF 12 = none ∧ s4.σ.astF 11 = some 6 ∧ (s4.σ.fst (s4.σ.astF 41).get!).pfield = fld "args" (some 1)
     := by unfold LinkInv; decide
+-- `run_wf`: a well-formed start state and an admissible three-step history (replace the List by a Call, replace the
+-- Module body, touch the root)
+example : WF s1 := ⟨by unfold LinkInv; decide, by decide, by decide⟩
+example : AdmissibleRun s1 [.setAst 3 newCall false true, .setField 0 "body" true newBody false true, .touch 0] := by
+  refine ⟨⟨rfl, rfl, listSub, rfl, by decide, by decide, by decide, by decide⟩,
+    ⟨rfl, rfl, s2.root, rfl, by decide, by decide, by decide⟩, trivial, trivial⟩
 -- root position of `setAst_inv_partial`
 example : s1.rootF < s1.σ.next ∧ (s1.σ.fst s1.rootF).a = some s1.root.id ∧ (s1.σ.fst s1.rootF).parent = none := by decide
 example : LinkInv (setAst s1 0 (.mk 30 "Module" none [ .mk 31 "Pass" (fld "body" (some 0)) [] ])) := by
